@@ -204,7 +204,7 @@ def run(ctx):
         "samples": [{"label": l, "bytes": d.hex()[:200]} for l, _, d in cases[:4]],
     })
     for f in fails[:3]:
-        ctx.violation(f["what"], dict(kind="c18", **f))
+        ctx.violation(f["what"], {**f, "check": "c18"})
     if disagreements and not fails:
         ctx.broken.append(f"correspondence read_batch: {len(disagreements)}; first: {disagreements[0]}")
 
